@@ -145,6 +145,11 @@ pub fn multibyte_variant(r: &mut Rng, t: &str) -> String {
     if r.chance(1, 4) { format!("{}{}{}", &t[..at], c, &t[at + 1..]) } else { format!("{}{}{}", &t[..at], c, &t[at + k..]) }
 }
 pub fn gen_args(r: &mut Rng, name: &str) -> Vec<V> {
+    // words that mean a moment in SQL / shells / spreadsheets (a "convenience" reading of them consults the clock: the answer then differs between two calls)
+    if matches!(name, "string_to_date" | "string_to_time" | "string_to_datetime" | "date_from_rfc3339" | "date_from_rfc2822" | "date" | "time" | "float" | "int") && r.chance(1, 12) {
+        let w = *r.pick(&["now", "today", "tomorrow", "yesterday", "NOW", " now ", "Today", "epoch", "infinity", "-infinity", "noon", "midnight", "current_timestamp", "CURRENT_DATE", "now()", "0000-00-00", "next week", "@0", "utc"]);
+        return if name.starts_with("string_to") && r.chance(1, 3) { vec![s(w), s(match name { "string_to_date" => "%Y-%m-%d", "string_to_time" => "%H:%M:%S", _ => "%Y-%m-%d %H:%M:%S" })] } else { vec![s(w)] };
+    }
     if matches!(name, "string_to_date" | "string_to_time" | "string_to_datetime" | "date_from_rfc3339" | "date_from_rfc2822") && r.chance(1, 6) {
         let t = match name { "string_to_date" => format!("{:04}-{:02}-{:02}", 1900 + r.below(200), 1 + r.below(12), 1 + r.below(28)), "string_to_time" => format!("{:02}:{:02}:{:02}", r.below(24), r.below(60), r.below(60)),
             "string_to_datetime" => format!("{:04}-{:02}-{:02} {:02}:{:02}:{:02}", 1900 + r.below(200), 1 + r.below(12), 1 + r.below(28), r.below(24), r.below(60), r.below(60)),
